@@ -11,6 +11,12 @@ for p in C03 C04 C05; do
   if [ -n "$f" ] && grep -q '"invariant": "memory-fault"' $f; then mv $f replays/known/$p-munmap-with-holders.json; else echo "known finding for $p not regenerated"; fi
   rm -rf replays/$p
 done
+# C11: the report larger than the server's limit (window oversize-report)
+rm -rf replays/C11
+./bin/vcheck C11 --noquarantine --runs 4000 2>&1 | grep -A1 "^VIOLATION" | cut -c1-160
+f=$(ls replays/C11/*.json 2>/dev/null | head -1)
+if [ -n "$f" ] && grep -q 'request body too large' $f; then mv $f replays/known/C11-report-larger-than-server-limit.json; else echo "known finding for C11 not regenerated"; fi
+rm -rf replays/C11
 python3 - <<'PY'
 import json,subprocess
 k=json.load(open('/verif/known_findings.json'))
